@@ -476,6 +476,15 @@ def wrap(x, signed, n_word):
         
     return x
 
+def python_number(v):
+    # numpy integers and narrow numpy floats (scalars or 0-dimensional arrays) as python numbers: a python number combined with such a numpy scalar
+    # is evaluated in the numpy scalar's own type (it wraps around in a narrow integer, it is rounded in float16 / float32)
+    if isinstance(v, np.ndarray) and v.ndim == 0:
+        v = v[()]
+    if isinstance(v, np.integer) or (isinstance(v, np.floating) and v.dtype.itemsize < 8):
+        return v.item()
+    return v
+
 def scale_raw(x, n_shift):
     # raw (integer) value(s) scaled by 2**n_shift; python integers are used if the result does not fit in a signed 64 bits integer
     if isinstance(x, int) and not -2**63 <= x < 2**63:
